@@ -2814,10 +2814,10 @@ func (db *DB) snapshotPosition(ctx context.Context) (*snapshotReadPosition, erro
 // the given position. db.syncState is read without db.mu because every writer
 // mutates it while holding execSem, which the caller also holds.
 func (db *DB) snapshotWALEndOffset(pos ltx.Pos) (int64, error) {
-	if db.syncState.lastSyncedWALOffset > 0 {
-		return db.syncState.lastSyncedWALOffset, nil
-	}
 	if pos.TXID == 0 {
+		if db.syncState.lastSyncedWALOffset > 0 {
+			return db.syncState.lastSyncedWALOffset, nil
+		}
 		return WALHeaderSize, nil
 	}
 
@@ -2848,6 +2848,11 @@ func (db *DB) snapshotWALEndOffset(pos ltx.Pos) (int64, error) {
 		return WALHeaderSize, nil
 	}
 
+	// The cached offset is only meaningful for the WAL generation the last
+	// LTX file was copied from, which the salt comparison above established.
+	if db.syncState.lastSyncedWALOffset > 0 {
+		return db.syncState.lastSyncedWALOffset, nil
+	}
 	return dec.Header().WALOffset + dec.Header().WALSize, nil
 }
 
